@@ -322,8 +322,57 @@ def _documented_raises(f):
     return out
 
 
+_CATCHES_DOCUMENTED = {"ValueError", "TypeError", "Exception", "BaseException", "ArithmeticError"}
+
+
+def swallowing_handlers(func_node, is_package_call):
+    """(handler, try body call) pairs: an `except` that catches ValueError / TypeError (or a base of them, or everything)
+    around a call into the package and does not end in a raise on every path.  The documented refusals of the rules
+    (unbroken boundary tie, invalid seats, ballots without the needed data) are ValueErrors / TypeErrors raised by the
+    package's own constructors and helpers: such a handler turns one of them into "some result"."""
+    out = []
+    for t in ast.walk(func_node):
+        if not isinstance(t, ast.Try):
+            continue
+        calls = [c for st in t.body for c in ast.walk(st) if isinstance(c, ast.Call) and is_package_call(c)]
+        if not calls:
+            continue
+        for h in t.handlers:
+            names = [astx.u(x) for x in (h.type.elts if isinstance(h.type, ast.Tuple) else [h.type])] if h.type is not None else ["BaseException"]
+            if not any(n.split(".")[-1] in _CATCHES_DOCUMENTED for n in names):
+                continue
+            if astx.always_raises(h.body):
+                continue
+            out.append((h, calls[0]))
+    return out
+
+
+_HANDLER_SAMPLE = """
+def step(self, profile):
+    try:
+        first = Plurality(profile, 2, self.tiebreak)
+    except ValueError:
+        first = Plurality(profile, 1, self.tiebreak)
+    try:
+        k = names.index(c)
+    except ValueError:
+        k = -1
+    try:
+        second = Plurality(profile, 2, self.tiebreak)
+    except ValueError as e:
+        raise ValueError("no runoff possible") from e
+    return first
+"""
+
+
 def r4_raise_census(ctx):
     prog = ctx.prog
+    sample = ast.parse(_HANDLER_SAMPLE).body[0]
+    got = swallowing_handlers(sample, lambda c: astx.call_name(c) == "Plurality")
+    if len(got) != 1 or got[0][0].lineno != 5:
+        ctx.undecided(None, None, "handler clause self-test", f"the handler clause finds {len(got)} of the 1 swallowing handler of its built-in sample")
+    else:
+        ctx.ok(None, None, "handler clause self-test: 1 swallowing handler of 3 in the built-in sample", "")
     for f in prog.iter_functions(elect.SCOPE_ELECTION):
         if isinstance(f.node, ast.Lambda):
             continue
@@ -348,6 +397,16 @@ def r4_raise_census(ctx):
                 continue
             ctx.violated(f, r, f"raise {t}",
                          f"{t} is neither ValueError/TypeError nor documented for {f.short}; it would escape for otherwise valid input")
+        # no handler swallows a documented refusal
+        def _pkg(c, f=f):
+            q = prog.resolve_expr(f.module, c.func)
+            if q and (q in prog.functions or q in prog.classes):
+                return True
+            return isinstance(c.func, ast.Attribute) and astx.is_name(c.func.value, "self") and f.cls is not None and f.cls.lookup(c.func.attr) is not None
+        for h, c in swallowing_handlers(f.node, _pkg):
+            ctx.violated(f, h, "no handler swallows a documented ValueError / TypeError of the package",
+                         f"`except {astx.u(h.type) if h.type is not None else ''}` around `{astx.u(c)[:60]}` does not re-raise: a refusal raised inside "
+                         "(an unbroken boundary tie, an invalid seat count, ballots without the needed data) is turned into some result")
         for a in astx.walk_own(f.node):
             if isinstance(a, ast.Assert) and not astx.is_const(a.test, False):
                 # an assertion that restates what the path already established cannot fire
@@ -811,4 +870,15 @@ FAULTS += [
 ]
 BENIGN += [
     ("test-first selector", [(UT, _SEL_REGION, _SEL_TEST_FIRST % ("<=", ""))]),
+]
+
+# handlers around package calls (clause of C01.R4)
+_TT_FIRST = "            plurality = Plurality(profile, 2, self.tiebreak)\n"
+FAULTS += [
+    ("first stage of TopTwo falls back to one seat on any ValueError", [(TT, _TT_FIRST, "            try:\n                plurality = Plurality(profile, 2, self.tiebreak)\n            except ValueError:\n                plurality = Plurality(profile, 1, self.tiebreak)\n")], "C01.R4"),
+    ("first stage of TopTwo ignores every error", [(TT, _TT_FIRST, "            try:\n                plurality = Plurality(profile, 2, self.tiebreak)\n            except Exception:\n                return profile\n")], "C01.R4"),
+]
+BENIGN += [
+    ("first stage of TopTwo re-raises with context", [(TT, _TT_FIRST, "            try:\n                plurality = Plurality(profile, 2, self.tiebreak)\n            except ValueError as err:\n                raise ValueError(f\"first stage: {err}\") from err\n")]),
+    ("first stage of TopTwo guards a lookup of a built-in", [(TT, _TT_FIRST, "            try:\n                _pos = list(profile.candidates).index(\"\")\n            except ValueError:\n                _pos = -1\n            plurality = Plurality(profile, 2, self.tiebreak)\n")]),
 ]
